@@ -2,7 +2,10 @@
 
 package api
 
-import "fmt"
+import (
+	"fmt"
+	"net/http"
+)
 
 // verifTrack reports the start of a database-API request handler and returns the function that
 // reports its end (used as `defer verifTrack(name, opID)()`). A panic unwinding through the handler is
@@ -27,3 +30,9 @@ func (api *DatabaseAPI) VerifShutdown() {
 		close(api.shutdownSignal)
 	}
 }
+
+// VerifDatabaseWebsocketHandler returns the HTTP handler behind /api/database/v1 (startDatabaseWebsocketAPI: upgrade,
+// a DatabaseWebsocketAPI with its own database interface, the connection's handler and writer workers) without the
+// authentication wrapper it is registered with, so that a test server can serve the real websocket transport
+// without a running api module.
+func VerifDatabaseWebsocketHandler() http.HandlerFunc { return startDatabaseWebsocketAPI }
